@@ -35,6 +35,20 @@ theorem DfsPanic.frame (hdel : FrameStable deliver) {w es err log x wl P}
   | child hs _ ih => exact ih.trans (hs.frame hdel)
   | sibling hs hc _ ih => exact ih.trans ((hc.frame hdel).trans (hs.frame hdel))
 
+/-- the failing delivery of an interrupted propagation: it was started (on an empty segment) in some world `wpre` with
+    the frame of the start, and left `wl` -/
+theorem DfsPanic.inflight (hdel : FrameStable deliver) {w es err log x wl P}
+    (h : DfsPanic deliver w es err log x wl P) :
+    ∃ wpre : World, wpre.frame = w.frame ∧ (deliver x).run.run { wpre with queue := [] } = (.error err, wl) := by
+  induction h with
+  | @here w e es err wl hd => exact ⟨w, rfl, hd⟩
+  | child hs _ ih =>
+    obtain ⟨wpre, hf, hr⟩ := ih
+    exact ⟨wpre, hf.trans (hs.frame hdel), hr⟩
+  | sibling hs hc _ ih =>
+    obtain ⟨wpre, hf, hr⟩ := ih
+    exact ⟨wpre, hf.trans ((hc.frame hdel).trans (hs.frame hdel)), hr⟩
+
 /-- the registry entry of a queued event depends on the frame only -/
 theorem evInfo_of_frame {w1 w2 : World} (h : w1.frame = w2.frame) : w1.evInfo = w2.evInfo := by
   have hg : w1.gevs = w2.gevs := congrArg Frame.gevs h
